@@ -14,7 +14,8 @@ LEVEL = 'exploration'
 RULE = ('random signatures over body styles {wrapped, out_bare, empty, bare with a complex argument passed field-wise}, 0..n arguments, '
         'none/one/many return values, generator results, raised faults, Ignored(...) returns; each call made through NullServer '
         '(positional and keyword) and through XmlDocument, Soap11, JsonDocument; non-trivial = both sides produced a result or both a '
-        'fault; distinct by (style, wire protocol, argument/return shapes, outcome kind).')
+        'fault; distinct by (style, wire protocol, argument/return shapes, outcome kind).'
+        ' Also: held callables, alternating call order, nulls left out, mixed positional/keyword calls (bare methods member by member), declared defaults with falsy values (random and one fixed universe), public names differing from attribute names.')
 ASSUMPTIONS = [
     'the wire side is decoded by the reference codecs (vflib/refxml.py, vflib/refdict.py)',
     'JSON comparisons skip universes with XML-only members; text restricted to XML Char on all paths so that the same values run everywhere',
